@@ -5,6 +5,10 @@ From Verif Require Import Spec.Listing Run.Show.
 Import ListNotations.
 Open Scope string_scope.
 
+(* a string given by its bytes: file names that are not UTF-8 reach the listing as they are *)
+Fixpoint bstr (l : list N) : string :=
+  match l with [] => "" | b :: r => String (ascii_of_N b) (bstr r) end.
+
 Inductive observed := ObsText (t : string) | ObsCrash.
 
 (* one listing case:
